@@ -4,6 +4,7 @@ from core import Family, call
 import gal as G
 import gencommon as gc
 from props import c67util as S
+from geomdl import helpers as _helpers
 from geomdl import operations
 
 TOL8 = S.TOL8
@@ -76,6 +77,11 @@ def gen_obj(rng, pdim, i, maxint):
                        budget={1: 40, 2: 56}[pdim])
 
 
+def span_kw(c):
+    """every sixth case of a family selects the non-default knot-span search (binary search): same spans, hence same pieces"""
+    return {"find_span_func": _helpers.find_span_binsearch} if c.get("binsearch") else {}
+
+
 def clamped_msg(sn, d, what):
     kv, p = sn["kv"][d], sn["deg"][d]
     if len(set(kv[:p + 1])) != 1 or len(set(kv[-p - 1:])) != 1:
@@ -144,13 +150,13 @@ class SplitCurve(Family):
                 sg = 1.0 if k == lo else (-1.0 if k == hi else rng.choice([-1.0, 1.0]))
                 if lo < k + sg * eps < hi and (k + sg * eps) not in kv:
                     u, cls = k + sg * eps, "nearknot"
-            out.append({"shape": sh, "param": u, "cls": cls})
+            out.append({"binsearch": (len(out) % 6 == 3), "shape": sh, "param": u, "cls": cls})
         return out
 
     def impl(self, c):
         obj = S.build(c["shape"])
         before = S.snapshot(obj)
-        r = call(operations.split_curve, obj, c["param"])
+        r = call(operations.split_curve, obj, c["param"], **span_kw(c))
         if "ok" in r:
             r = {"ok": {"pieces": [S.snapshot(x) for x in r["ok"]]}}
         r["unchanged"] = S.snapshot(obj) == before
@@ -214,14 +220,14 @@ class SplitSurface(Family):
                 u = lo_d + (hi_d - lo_d) * 0.5
                 sh["kv"][e] = [k - lo + lo_d for k in sh["kv"][e]]      # same start, half the range: its end is u
                 cls = "cross-end-m%d" % S.mult(sh["kv"][d], u)
-            out.append({"shape": sh, "dir": d, "param": u, "cls": cls})
+            out.append({"binsearch": (len(out) % 6 == 3), "shape": sh, "dir": d, "param": u, "cls": cls})
         return out
 
     def impl(self, c):
         obj = S.build(c["shape"])
         before = S.snapshot(obj)
         fn = operations.split_surface_u if c["dir"] == 0 else operations.split_surface_v
-        r = call(fn, obj, c["param"])
+        r = call(fn, obj, c["param"], **span_kw(c))
         if "ok" in r:
             r = {"ok": {"pieces": [S.snapshot(x) for x in r["ok"]]}}
         r["unchanged"] = S.snapshot(obj) == before
@@ -324,13 +330,13 @@ class DecomposeCurve(Family):
         out = []
         for i in range(n):
             sh = gen_obj(rng, 1, i, 4)
-            out.append({"shape": sh})
+            out.append({"binsearch": (len(out) % 6 == 3), "shape": sh})
         return out
 
     def impl(self, c):
         obj = S.build(c["shape"])
         before = S.snapshot(obj)
-        r = call(operations.decompose_curve, obj)
+        r = call(operations.decompose_curve, obj, **span_kw(c))
         if "ok" in r:
             r = {"ok": {"pieces": [S.snapshot(x) for x in r["ok"]]}}
         r["unchanged"] = S.snapshot(obj) == before
@@ -378,13 +384,13 @@ class DecomposeSurface(Family):
             dd = ["u", "v", "uv"][i % 3]
             if rng.random() < 0.04:
                 dd = rng.choice(["w", "vu", ""])
-            out.append({"shape": sh, "dir": dd})
+            out.append({"binsearch": (len(out) % 6 == 3), "shape": sh, "dir": dd})
         return out
 
     def impl(self, c):
         obj = S.build(c["shape"])
         before = S.snapshot(obj)
-        r = call(operations.decompose_surface, obj, decompose_dir=c["dir"])
+        r = call(operations.decompose_surface, obj, decompose_dir=c["dir"], **span_kw(c))
         if "ok" in r:
             r = {"ok": {"pieces": [S.snapshot(x) for x in r["ok"]]}}
         r["unchanged"] = S.snapshot(obj) == before
